@@ -108,7 +108,7 @@ package tree
 //@   requires t != nil
 //@   allocates []*Edge
 //@   assigns nothing
-//@   ensures [elements_are_branches_with_both_ends] forall k int :: 0 <= k && k < len(result) ==> result[k] != nil && result[k].right != nil && result[k].left != nil
+//@   ensures [elements_are_branches_with_both_ends] forall k int :: 0 <= k && k < len(result) ==> result[k] != nil && allocated(result[k]) && result[k].right != nil && result[k].left != nil && allocated(result[k].left) && allocated(result[k].right)
 //@   ensures [fresh_storage] fresh_arr(result)
 
 //@ func (*tree.Tree).ReinitIndexes
@@ -218,9 +218,52 @@ package tree
 // exactly the set of branches satisfying the documented criterion
 // ---------------------------------------------------------------------------
 
+// RemoveEdges (properties C03, C07): a tip branch is never contracted (its length is zeroed on request only),
+// a branch next to a degree-2 end is contracted on request only; contracting e moves every other neighbour of
+// e.right under e.left (slot re-pointed, branch re-attached, appended to e.left) and empties e.right.
+// Writes adjacency, the upper end of the moved branches, the length of tip branches on request, and the
+// derived index fields - never a support, a name, a comment or another length.
+//@ define REOK(e *Edge) bool = e != nil && allocated(e) && e.left != nil && e.right != nil && allocated(e.left) && allocated(e.right)
 //@ func (*tree.Tree).RemoveEdges
-//@   flag treeop
-//@   requires t != nil
+//@   flag lightcalls
+//@   requires t != nil && INV1() && INV2() && OWN() && LIVEBR()
+//@   requires forall k int :: {edges[k]} 0 <= k && k < len(edges) ==> REOK(edges[k])
+//@   requires [the_list_is_not_a_node_s_own_branch_array] forall n *Node :: {n.br} allocated(n) ==> arr(n.br) != arr(edges)
+//@   allocates bitset.BitSet, iface, []*Node, []*Edge, []string
+//@   assigns Node.neigh, Node.br, elems("*Node"), elems("*Edge"), Edge.left, Edge.length, Edge.bitset, Edge.hashcodeleft, Edge.hashcoderight, Edge.ntaxleft, Edge.ntaxright, Node.depth, Node.rootdepth, ghost(bs_bits), ghost(bs_len)
+//@   call (*tree.Node).delNeighbor [a_tip_branch_is_never_contracted] a0 == e.left ==> len(e.right.neigh) != 1
+//@   call (*tree.Node).delNeighbor [a_branch_next_to_a_degree_2_end_is_contracted_on_request_only] a0 == e.left ==> removeRoot || (len(e.right.neigh) != 2 && len(e.left.neigh) != 2)
+//@   call (*tree.Node).delNeighbor [both_ends_forget_each_other] (a0 == e.left && a1 == e.right) || (a0 == e.right && a1 == e.left)
+//@   call (*tree.Edge).SetLength [only_tip_branches_are_zeroed_and_only_on_request] removeTips && a0 == e && len(e.right.neigh) == 1 && a1 == 0.0
+//@   call (*tree.Tree).unconnectNode [the_lower_end_of_the_contracted_branch_is_emptied] a1 == e.right
+//@   loop 1
+//@     invariant [live] t != nil
+//@     invariant [i1] INV1()
+//@     invariant [i2] INV2()
+//@     invariant [unshared] OWN()
+//@     invariant [livebr] LIVEBR()
+//@     invariant [list_private] forall n *Node :: {n.br} allocated(n) ==> arr(n.br) != arr(edges)
+//@     invariant [edges_kept] forall k int :: {edges[k]} 0 <= k && k < len(edges) ==> REOK(edges[k])
+//@   loop 2
+//@     invariant [live] t != nil && REOK(e)
+//@     invariant [every_neighbour_in_the_ranged_list_is_a_live_node] forall k int :: {lold(e.right.neigh)[k]} 0 <= k && k < len(lold(e.right.neigh)) ==> lold(e.right.neigh)[k] != nil && allocated(lold(e.right.neigh)[k])
+//@     invariant [i1] INV1()
+//@     invariant [i2] INV2()
+//@     invariant [unshared] OWN()
+//@     invariant [livebr] LIVEBR()
+//@     invariant [list_private] forall n *Node :: {n.br} allocated(n) ==> arr(n.br) != arr(edges)
+//@     invariant [edges_kept] forall k int :: {edges[k]} 0 <= k && k < len(edges) ==> REOK(edges[k])
+//@     step [moved_neighbour_now_hangs_under_the_upper_end] atHead(e.left != e.right) && child != atHead(e.left) ==> (exists k int :: 0 <= k && k < len(child.neigh) && child.neigh[k] == e.left && child.br[k].left == e.left && len(e.left.neigh) == atHead(len(e.left.neigh)) + 1 && e.left.neigh[len(e.left.neigh) - 1] == child && e.left.br[len(e.left.br) - 1] == child.br[k])
+//@     step [upper_end_itself_is_not_moved] child == atHead(e.left) ==> len(e.left.neigh) == atHead(len(e.left.neigh))
+
+//@ func (*tree.Tree).unconnectNode
+//@   requires t != nil && n != nil && len(n.neigh) >= 0
+//@   assigns n.neigh, n.br, elems(n.neigh), elems(n.br)
+//@   ensures [emptied] len(n.neigh) == 0 && len(n.br) == 0 && arr(n.neigh) == 0 && arr(n.br) == 0
+//@   loop 1
+//@     assigns elems(n.neigh)
+//@   loop 2
+//@     assigns elems(n.br)
 
 //@ define lowsupport(e *Edge, s float64) bool = e.support != -1 && e.support < s
 //@ define shortbranch(e *Edge, l float64) bool = e.length <= l
@@ -229,36 +272,42 @@ package tree
 
 //@ func (*tree.Tree).CollapseLowSupport
 //@   flag noframe
-//@   requires t != nil
+//@   requires t != nil && INV1() && INV2() && OWN() && LIVEBR()
 //@   call (*tree.Tree).RemoveEdges [only_branches_with_present_support_below_threshold] forall k int :: 0 <= k && k < len(a3) ==> a3[k] != nil && lowsupport(a3[k], support)
 //@   call (*tree.Tree).RemoveEdges [every_such_branch_is_selected] forall j int :: 0 <= j && j < len(edges) && lowsupport(edges[j], support) ==> (exists k int :: 0 <= k && k < len(a3) && a3[k] == edges[j])
 //@   call (*tree.Tree).RemoveEdges [tips_never_requested_for_removal] a2 == false
 //@   loop 1
 //@     invariant [separate_storage] arr(lowsupportbranches) != arr(edges)
-//@     invariant [branches] forall k int :: 0 <= k && k < len(edges) ==> edges[k] != nil
-//@     invariant [sound] forall k int :: 0 <= k && k < len(lowsupportbranches) ==> lowsupportbranches[k] != nil && lowsupport(lowsupportbranches[k], support)
+//@     invariant [tree_untouched] t != nil && INV1() && INV2() && OWN() && LIVEBR()
+//@     invariant [selection_in_its_own_storage] fresh_arr(lowsupportbranches)
+//@     invariant [branches] forall k int :: 0 <= k && k < len(edges) ==> REOK(edges[k])
+//@     invariant [sound] forall k int :: 0 <= k && k < len(lowsupportbranches) ==> REOK(lowsupportbranches[k]) && lowsupport(lowsupportbranches[k], support)
 //@     invariant [complete] forall j int :: {edges[j]} 0 <= j && j <= rangeindex && lowsupport(edges[j], support) ==> (exists k int :: {lowsupportbranches[k]} 0 <= k && k < len(lowsupportbranches) && lowsupportbranches[k] == edges[j])
 
 //@ func (*tree.Tree).CollapseShortBranches
 //@   flag noframe
-//@   requires t != nil
+//@   requires t != nil && INV1() && INV2() && OWN() && LIVEBR()
 //@   call (*tree.Tree).RemoveEdges [only_branches_not_longer_than_threshold] forall k int :: 0 <= k && k < len(a3) ==> a3[k] != nil && shortbranch(a3[k], length)
 //@   call (*tree.Tree).RemoveEdges [every_such_branch_is_selected] forall j int :: 0 <= j && j < len(edges) && shortbranch(edges[j], length) ==> (exists k int :: 0 <= k && k < len(a3) && a3[k] == edges[j])
 //@   loop 1
 //@     invariant [separate_storage] arr(shortbranches) != arr(edges)
-//@     invariant [branches] forall k int :: 0 <= k && k < len(edges) ==> edges[k] != nil
-//@     invariant [sound] forall k int :: 0 <= k && k < len(shortbranches) ==> shortbranches[k] != nil && shortbranch(shortbranches[k], length)
+//@     invariant [tree_untouched] t != nil && INV1() && INV2() && OWN() && LIVEBR()
+//@     invariant [selection_in_its_own_storage] fresh_arr(shortbranches)
+//@     invariant [branches] forall k int :: 0 <= k && k < len(edges) ==> REOK(edges[k])
+//@     invariant [sound] forall k int :: 0 <= k && k < len(shortbranches) ==> REOK(shortbranches[k]) && shortbranch(shortbranches[k], length)
 //@     invariant [complete] forall j int :: {edges[j]} 0 <= j && j <= rangeindex && shortbranch(edges[j], length) ==> (exists k int :: {shortbranches[k]} 0 <= k && k < len(shortbranches) && shortbranches[k] == edges[j])
 
 //@ func (*tree.Tree).CollapseTopoDepth
 //@   flag noframe
-//@   requires t != nil
+//@   requires t != nil && INV1() && INV2() && OWN() && LIVEBR()
 //@   call (*tree.Tree).RemoveEdges [only_branches_within_the_depth_interval] forall k int :: 0 <= k && k < len(a3) ==> a3[k] != nil && indepth(a3[k], mindepthThreshold, maxdepthThreshold)
 //@   call (*tree.Tree).RemoveEdges [every_such_branch_is_selected] forall j int :: 0 <= j && j < len(edges) && indepth(edges[j], mindepthThreshold, maxdepthThreshold) ==> (exists k int :: 0 <= k && k < len(a3) && a3[k] == edges[j])
 //@   loop 1
 //@     invariant [separate_storage] arr(depthbranches) != arr(edges)
-//@     invariant [branches] forall k int :: 0 <= k && k < len(edges) ==> edges[k] != nil
-//@     invariant [sound] forall k int :: 0 <= k && k < len(depthbranches) ==> depthbranches[k] != nil && indepth(depthbranches[k], mindepthThreshold, maxdepthThreshold)
+//@     invariant [tree_untouched] t != nil && INV1() && INV2() && OWN() && LIVEBR()
+//@     invariant [selection_in_its_own_storage] fresh_arr(depthbranches)
+//@     invariant [branches] forall k int :: 0 <= k && k < len(edges) ==> REOK(edges[k])
+//@     invariant [sound] forall k int :: 0 <= k && k < len(depthbranches) ==> REOK(depthbranches[k]) && indepth(depthbranches[k], mindepthThreshold, maxdepthThreshold)
 //@     invariant [complete] forall j int :: {edges[j]} 0 <= j && j <= rangeindex && indepth(edges[j], mindepthThreshold, maxdepthThreshold) ==> (exists k int :: {depthbranches[k]} 0 <= k && k < len(depthbranches) && depthbranches[k] == edges[j])
 
 // ---------------------------------------------------------------------------
@@ -432,6 +481,10 @@ package tree
 //@   ensures [keeps_live_non_self_entries] err == nil && old(I2(n)) ==> I2(n)
 //@   ensures [keeps_distinct_neighbours] err == nil && old(I5(n)) ==> I5(n)
 //@   ensures [same_backing_arrays] err == nil ==> arr(n.neigh) == old(arr(n.neigh)) && arr(n.br) == old(arr(n.br)) && off(n.neigh) == old(off(n.neigh)) && off(n.br) == old(off(n.br))
+//@   ensures [all_nodes_stay_parallel] old(INV1()) ==> INV1()
+//@   ensures [backing_arrays_stay_unshared] old(OWN()) ==> OWN()
+//@   ensures [all_nodes_keep_live_non_self_entries] old(INV1() && INV2() && OWN()) ==> INV2()
+//@   ensures [all_slots_keep_live_branches] old(INV1() && LIVEBR() && OWN()) ==> LIVEBR()
 
 // ---------------------------------------------------------------------------
 // Orientation: every node has at most one incoming branch, the root has none
